@@ -157,10 +157,6 @@ def iso : Transform → Isometry
   | .rotEuler ca sa cb sb cg sg => .euler ca sa cb sb cg sg
   | .rotMat M => .matrix M
 
-theorem about_comm (M : Mat3 ℚ) (c p : Vec3 ℚ) :
-    Vec3.add (M.mulVec (Vec3.sub p c)) c = about M.mulVec c p := by
-  ext <;> simp only [about, Vec3.add] <;> ring
-
 /-- what each transform does to the array of selected coordinates is the stated isometry, row by row -/
 theorem onXYZ_is_isometry (t : Transform) (X : List (Vec3 ℚ)) : t.onXYZ X = X.map ((iso t).pointMap X) := by
   cases t with
@@ -231,13 +227,6 @@ theorem pointMap_rigid (t : Transform) (X : List (Vec3 ℚ))
     simp only [iso, Isometry.pointMap]
     convert this using 2 with p
     rw [about_comm]
-
-/-- every non-coordinate attribute equal -/
-def SameAttrs (a a' : Atom) : Prop := a' = { a with x := a'.x, y := a'.y, z := a'.z }
-
-theorem sameAttrs_refl (a : Atom) : SameAttrs a a := rfl
-theorem sameAttrs_trans {a b c : Atom} (h1 : SameAttrs a b) (h2 : SameAttrs b c) : SameAttrs a c := by
-  unfold SameAttrs at *; rw [h2, h1]
 
 /-- **finite compositions** of transforms with arbitrary selections: if the sequence returns, the table
     has the same rows in the same order and every row keeps all its non-coordinate attributes. -/
